@@ -3,7 +3,7 @@
    Server::handle_message on request bytes [req], reply capacity [cap], transport [k],
    with the filesystem answering [fr] (an arbitrary oracle value). *)
 From Coq Require Import List String NArith Bool.
-From FB Require Import Lib.Bytes Model.Server Spec.Requests Spec.WfReq Proofs.ServerPerform Proofs.ServerReply Proofs.ServerDecide Proofs.ServerHandle Proofs.ServerDecodeLib Proofs.ServerDecode Proofs.ServerBounds.
+From FB Require Import Lib.Bytes Model.Server Spec.Requests Spec.WfReq Proofs.ServerPerform Proofs.ServerReply Proofs.ServerDecide Proofs.ServerHandle Proofs.ServerDecodeLib Proofs.ServerDecode Proofs.ServerBounds Proofs.ServerInitAnswer.
 Import ListNotations.
 Local Open Scope N_scope.
 
@@ -58,6 +58,16 @@ Theorem C01_answer_exactly_one_message : forall cfg q fr cap du dg,
             /\ wellformed_reply (q_unique q) p.
 Proof. exact answer_one_wellformed_packet. Qed.
 
+(* INIT (opcode 26) is not in [wf_ops], so the two theorems above do not speak about it: every INIT that
+   carries its 16 fixed bytes is answered, for every major (older -> EPROTO, newer -> the 7.x offer),
+   every minor, every flag word, with / without / with a short 7.36 tail, every filesystem answer *)
+Theorem C01_init_answered : forall cfg req fr cap hb r du dg,
+  read_obj 40 req = Some (hb, r) -> h_opcode (parse_hdr hb) = 26 ->
+  h_len (parse_hdr hb) <= MAX_BUFFER_SIZE + BUFFER_HEADER_SIZE ->
+  cfg_remap cfg = RemapOk du dg -> (16 <= List.length r)%nat ->
+  replies (snd (fst (decide cfg req fr cap))) = true.
+Proof. exact init_answered. Qed.
+
 (* the server never asks the writer for more than the supplied reply buffer: whatever the request
    bytes, the filesystem answer and the transport, every packet handed to the fd and the bytes
    placed in the virtio descriptors are at most [cap] bytes (model-level content of "never touches
@@ -102,6 +112,7 @@ Print Assumptions C01_reply_wellformed.
 Print Assumptions C01_forget_silent.
 Print Assumptions C01_actions_wellformed.
 Print Assumptions C01_answer_required.
+Print Assumptions C01_init_answered.
 Print Assumptions C01_answer_exactly_one_message.
 Print Assumptions C01_within_capacity.
 Print Assumptions C01_answer_exactly_one_message_virtio.
